@@ -67,6 +67,8 @@ def judge(res, recs, meta, name, pid_seed):
         if "ZONE_FlatSimplex" in clauses:
             clauses = clauses - {"ZONE_FlatSimplex"}
             key = "gjk_jolt:flat-final-simplex"
+        elif m.get("pinned") is True and "[acc]" in m["fn"]:
+            key = f"{m['fn']}:pinned:{chash([m['A'], m['B'], m['clsA'], m['clsB'], m['lift']])}"
         else:
             key = f"{m['fn']}:{m['clsA']}-{m['clsB']}:{'+'.join(sorted(clauses))}:{chash([m['A'], m['B'], m['lift']])}"
         r = next(x for x in recs if x["id"] == rid)
